@@ -809,6 +809,59 @@ for cls, f in (("Buffer", "edges/buffer.py"), ("Fleet", "edges/fleet.py")):
         frag("%s_%s_delegates" % (cls, meth), f, lambda t, c=cls, m=meth: delegates(t, c, m), "true", kind="const")
 
 
+# ---------------------------------------------------------------- observers of the Buffer / Fleet edges leave the store's lists alone
+STAT_FIELDS = {"_weighted_sum", "_last_level_change_time", "_last_num_items", "time_averaged_num_of_items_in_store"}
+MUTATORS = {"append", "extend", "insert", "remove", "pop", "clear", "sort", "reverse", "__setitem__", "__delitem__", "__iadd__"}
+
+
+def observer_pure(tree, cls, meth):
+    """<cls>.<meth> (a query or a statistics refresh) assigns no attribute of self.inbuiltstore except the four level-statistics
+    fields, calls no method of the store (its own level-statistics update aside), deletes nothing, and neither a list of the store nor a local name bound to one
+    (`x = self.inbuiltstore.items`: the live list, not a copy) is updated in place (`+=`, append / extend / remove / pop / ...,
+    item or slice assignment).  The model's queries are functions of the store state, and its statistics refresh changes nothing
+    but the level accumulators."""
+    fn = find(tree, cls, meth)
+    alias = set()
+
+    def is_store_list(e):
+        return (isinstance(e, ast.Attribute) and ast.unparse(e.value) == "self.inbuiltstore") or (isinstance(e, ast.Name) and e.id in alias)
+
+    for n in ast.walk(fn):                              # aliases first (order-insensitive: any binding anywhere counts)
+        if isinstance(n, ast.Assign) and isinstance(n.value, ast.Attribute) and ast.unparse(n.value.value) == "self.inbuiltstore":
+            for t in n.targets:
+                if isinstance(t, ast.Name):
+                    alias.add(t.id)
+        if isinstance(n, (ast.NamedExpr,)) and isinstance(n.value, ast.Attribute) and ast.unparse(n.value.value) == "self.inbuiltstore":
+            alias.add(n.target.id)
+    for n in ast.walk(fn):
+        if isinstance(n, (ast.Assign, ast.AugAssign, ast.AnnAssign, ast.Delete)):
+            tg = n.targets if isinstance(n, (ast.Assign, ast.Delete)) else [n.target]
+            for t in tg:
+                for x in ([t] if not isinstance(t, (ast.Tuple, ast.List)) else t.elts):
+                    if isinstance(x, ast.Attribute) and ast.unparse(x.value) == "self.inbuiltstore" and x.attr not in STAT_FIELDS:
+                        return "false"
+                    if isinstance(x, ast.Attribute) and ast.unparse(x.value) == "self" and x.attr == "inbuiltstore":
+                        return "false"
+                    if isinstance(x, ast.Subscript) and is_store_list(x.value):
+                        return "false"
+                    if isinstance(n, ast.AugAssign) and isinstance(x, ast.Name) and x.id in alias:
+                        return "false"
+        if isinstance(n, ast.Call) and isinstance(n.func, ast.Attribute):
+            if ast.unparse(n.func.value) == "self.inbuiltstore" and n.func.attr != "_update_time_averaged_level":
+                return "false"                          # a method of the store other than its level-statistics update
+            if is_store_list(n.func.value) and n.func.attr in MUTATORS:
+                return "false"
+    return "true"
+
+
+for cls, f, meths in (("Buffer", "edges/buffer.py", ("can_put", "can_get", "occupancy", "ready_items", "items",
+                                                     "update_final_buffer_avg_content", "_buffer_stats_collector")),
+                      ("Fleet", "edges/fleet.py", ("can_put", "can_get", "get_occupancy", "get_ready_items", "get_items",
+                                                   "update_final_fleet_avg_content", "_fleet_stats_collector"))):
+    for meth in meths:
+        frag("%s_%s_observes" % (cls, meth.lstrip("_")), f, lambda t, c=cls, m=meth: observer_pure(t, c, m), "true", kind="const")
+
+
 # ---------------------------------------------------------------- the push helpers: reserve, wait, put THE item
 def push_shape(tree, cls):
     """<cls>._push_item(self, ITEM, EDGE): in every class-name branch the statements that matter are exactly
